@@ -34,7 +34,7 @@ pub fn plan(p: &EpParams) -> Plan {
     Plan {
         episodes: n,
         exhaustive: false,
-        rule: "sequential episodes on a populated server (2 topics, 3 subscriptions, backlog and leases): 20-30 seeded requests each with one corrupted field (hostile resource names incl. near-miss names, empty / 1 MiB / NUL / non-ASCII / huge non-ASCII / slash-heavy strings; boundary integers for page_size, max_messages, ack_deadline_seconds, modify seconds, max_outstanding_messages; ack-ID batches with one bad element at each position (non-numeric, signed, padded, fractional, full-width digits, decimal numbers just past 2^64-1 such as 2^64 and 2^64+1, and batches that are bad all over: 100 opaque 180-character IDs or 3000 short ones); hostile page tokens; unsupported push endpoints; StreamingPull first messages and control messages that mix valid acks with invalid modifications, repeat subscription / max_outstanding_* or have mismatched arrays), every 5th request a pair of corruptions. Non-trivial: >=1 corrupted request was answered. Distinct: (request type, field, corruption class).".into(),
+        rule: "sequential episodes on a populated server (2 topics, 3 subscriptions, backlog and leases): 20-30 seeded requests each with one corrupted field (hostile resource names incl. near-miss names, empty / 1 MiB / NUL / non-ASCII / huge non-ASCII / slash-heavy strings; boundary integers for page_size, max_messages, ack_deadline_seconds, modify seconds, max_outstanding_messages; ack-ID batches with one bad element at each position (non-numeric, signed, padded, fractional, full-width digits, decimal numbers just past 2^64-1 such as 2^64 and 2^64+1, and batches that are bad all over: 100 opaque 180-character IDs or 3000 short ones); hostile page tokens; unsupported push endpoints; StreamingPull first messages and control messages that mix valid acks with invalid modifications, repeat subscription / max_outstanding_* or have mismatched arrays, with and without any ack IDs), every 5th request a pair of corruptions. Non-trivial: >=1 corrupted request was answered. Distinct: (request type, field, corruption class).".into(),
     }
 }
 
@@ -446,7 +446,10 @@ async fn episode(p: &EpParams) -> EpReport {
                 w.settle().await;
                 let a = leases1[0].clone();
                 let b = leases1.get(1).cloned().unwrap_or_else(|| a.clone());
-                let (what, class, req) = match rng.below(7) {
+                let (what, class, req) = match rng.below(10) {
+                    7 => ("StreamingPull.control", "repeated-subscription-no-ids", pb::StreamingPullRequest { subscription: s1.clone(), ..Default::default() }),
+                    8 => ("StreamingPull.control", "repeated-max-outstanding-no-ids", pb::StreamingPullRequest { max_outstanding_messages: 5, ..Default::default() }),
+                    9 => ("StreamingPull.control", "seconds-without-ids", pb::StreamingPullRequest { modify_deadline_seconds: vec![30], ..Default::default() }),
                     0 => ("StreamingPull.control", "valid-acks+negative-seconds", pb::StreamingPullRequest { ack_ids: vec![a.clone()], modify_deadline_ack_ids: vec![b.clone()], modify_deadline_seconds: vec![-1], ..Default::default() }),
                     1 => ("StreamingPull.control", "valid-acks+bad-modify-id", pb::StreamingPullRequest { ack_ids: vec![a.clone()], modify_deadline_ack_ids: vec![rng.pick(&BAD_ACK_IDS).to_string()], modify_deadline_seconds: vec![30], ..Default::default() }),
                     2 if rng.chance(1, 4) => ("StreamingPull.control", "3000-bad-ack-ids+valid-modify", pb::StreamingPullRequest { ack_ids: (0..3000).map(|i| format!("x{}", i)).collect(), modify_deadline_ack_ids: vec![b.clone()], modify_deadline_seconds: vec![0], ..Default::default() }),
